@@ -33,6 +33,7 @@ impl TlfuShadow {
         }
     }
     fn inc(&mut self, h: u64) {
+        self.just_reset = false;
         self.universe.insert(h);
         self.recorded.insert(h);
         if !self.door.contains(&h) {
